@@ -198,28 +198,27 @@ Iter(n, q, hit, out) ==
                    hit, out)
 
 Q(d, st, sp, inc) == [dir |-> d, start |-> st, stop |-> sp, incl |-> inc]
-EntryPoint(fn, p, q) ==   \* the arguments each public scan passes to root.iterate
-  CASE fn = "AscendRange"          -> Q("asc", AKey(p), AKey(q), TRUE)
-    [] fn = "AscendLessThan"       -> Q("asc", NoKey, AKey(p), FALSE)
-    [] fn = "AscendGreaterOrEqual" -> Q("asc", AKey(p), NoKey, TRUE)
+EntryPoint(fn, pk, qk) == \* the arguments each public scan passes to root.iterate (pk, qk: AKey or NoKey = nil)
+  CASE fn = "AscendRange"          -> Q("asc", pk, qk, TRUE)
+    [] fn = "AscendLessThan"       -> Q("asc", NoKey, pk, FALSE)
+    [] fn = "AscendGreaterOrEqual" -> Q("asc", pk, NoKey, TRUE)
     [] fn = "Ascend"               -> Q("asc", NoKey, NoKey, FALSE)
-    [] fn = "DescendRange"         -> Q("desc", AKey(p), AKey(q), TRUE)
-    [] fn = "DescendLessOrEqual"   -> Q("desc", AKey(p), NoKey, TRUE)
-    [] fn = "DescendGreaterThan"   -> Q("desc", NoKey, AKey(p), FALSE)
+    [] fn = "DescendRange"         -> Q("desc", pk, qk, TRUE)
+    [] fn = "DescendLessOrEqual"   -> Q("desc", pk, NoKey, TRUE)
+    [] fn = "DescendGreaterThan"   -> Q("desc", NoKey, pk, FALSE)
     [] fn = "Descend"              -> Q("desc", NoKey, NoKey, FALSE)
-    [] fn = "AscendGreater"        -> Q("asc", AKey(p), NoKey, FALSE)       \* btree_ext.go
-    [] fn = "DescendLess"          -> Q("desc", AKey(p), NoKey, FALSE)      \* btree_ext.go
-    [] fn = "AscendGte"            -> Q("asc", AKey(p), NoKey, TRUE)        \* wrapper -> inner
-    [] fn = "AscendGt"             -> Q("asc", AKey(p), NoKey, FALSE)
-    [] fn = "DescendLte"           -> Q("desc", AKey(p), NoKey, TRUE)
-    [] fn = "DescendLt"            -> Q("desc", AKey(p), NoKey, FALSE)
+    [] fn = "AscendGreater"        -> Q("asc", pk, NoKey, FALSE)       \* btree_ext.go
+    [] fn = "DescendLess"          -> Q("desc", pk, NoKey, FALSE)      \* btree_ext.go
+    [] fn = "AscendGte"            -> Q("asc", pk, NoKey, TRUE)        \* wrapper -> inner
+    [] fn = "AscendGt"             -> Q("asc", pk, NoKey, FALSE)
+    [] fn = "DescendLte"           -> Q("desc", pk, NoKey, TRUE)
+    [] fn = "DescendLt"            -> Q("desc", pk, NoKey, FALSE)
 
 MScan(t, a) ==
   LET wrap == a.fn \in WrapScans
       cb   == [kind |-> IF wrap THEN "wrap" ELSE "plain", fm |-> a.fm, fr |-> a.fr, n |-> a.n]
-      q    == [dir |-> EntryPoint(a.fn, a.p, a.q).dir, start |-> EntryPoint(a.fn, a.p, a.q).start,
-               stop |-> EntryPoint(a.fn, a.p, a.q).stop, incl |-> EntryPoint(a.fn, a.p, a.q).incl,
-               cb |-> cb]
+      ep   == EntryPoint(a.fn, IF PNil(a) THEN NoKey ELSE AKey(a.p), IF QNil(a) THEN NoKey ELSE AKey(a.q))
+      q    == [dir |-> ep.dir, start |-> ep.start, stop |-> ep.stop, incl |-> ep.incl, cb |-> cb]
   IN IF wrap /\ a.n = 0 THEN <<>> ELSE Iter(t.root, q, FALSE, <<>>).out
 
 (* ------------------------------ actions ------------------------------- *)
@@ -272,9 +271,12 @@ ScanRefines ==
   \A h \in Handles, fn \in (IF api = "wrap" THEN WrapScans ELSE InnerScans) :
     \A p \in (IF fn \in NoPivot THEN {0} ELSE PivotSet), q \in (IF fn \in TwoPivot THEN PivotSet ELSE {0}) :
       \A c \in (IF fn \in TwoPivot THEN Combos2 ELSE Combos) :
-        LET a == [op |-> "scan", h |-> h, fn |-> fn, p |-> p, q |-> q,
-                  fm |-> c.f.fm, fr |-> c.f.fr, n |-> c.n]
-        IN MScan(conc[h], a) = Scan(trees[h], a)
+        \* a nil pivot (no bound on that side) is checked once per function, not once per pivot value
+        \A pn \in (IF fn \notin NoPivot /\ p = 0 THEN BOOLEAN ELSE {FALSE}),
+           qn \in (IF fn \in TwoPivot /\ q = 0 THEN BOOLEAN ELSE {FALSE}) :
+          LET a == [op |-> "scan", h |-> h, fn |-> fn, p |-> p, q |-> q, pn |-> pn, qn |-> qn,
+                    fm |-> c.f.fm, fr |-> c.f.fr, n |-> c.n]
+          IN MScan(conc[h], a) = Scan(trees[h], a)
 
 (* used by the _depth configuration only: shows that three-level trees are reachable *)
 Shallow == \A h \in Handles : LeafDepths(conc[h].root) \subseteq {1, 2}
